@@ -271,3 +271,217 @@ theorem walk_chain_cost (g : Graph) (src : Nat) (d : Dist) (pred : Pred) (hJ : P
             exact ⟨du, dt, hdu, h2, by simp only [walkCost, hc, Option.getD_some]; omega⟩
 
 end Gmx.SwapGraph
+
+namespace Gmx.SwapGraph
+
+/-! ### a terminating predecessor walk visits no token twice -/
+
+/-- `Term pred c n`: following predecessors from `c` reaches a token without predecessor after
+exactly `n` steps. -/
+inductive Term (pred : Pred) : Nat → Nat → Prop
+  | zero {c : Nat} : pred c = none → Term pred c 0
+  | succ {c p m n : Nat} : pred c = some (p, m) → Term pred p n → Term pred c (n + 1)
+
+theorem Term.det {pred : Pred} : ∀ {c n n' : Nat}, Term pred c n → Term pred c n' → n = n' := by
+  intro c n n' h
+  induction h generalizing n' with
+  | zero h0 =>
+    intro h'
+    cases h' with
+    | zero _ => rfl
+    | succ h1 _ => rw [h0] at h1; cases h1
+  | succ h1 _ ih =>
+    intro h'
+    cases h' with
+    | zero h0 => rw [h0] at h1; cases h1
+    | succ h1' h2' =>
+      rw [h1] at h1'
+      cases h1'
+      rw [ih h2']
+
+/-- the walk follows predecessor links. -/
+def PredLinked (pred : Pred) : Nat → List Edge → Prop
+  | _, [] => True
+  | a, e :: es => e.src = a ∧ pred e.dst = some (a, e.market) ∧ PredLinked pred e.dst es
+
+/-- the predecessor walk yields a predecessor-linked walk that starts at a token without
+predecessor. -/
+theorem walk_chain_linked (g : Graph) (pred : Pred) (hok : PredOk g pred) (ms tgt : Nat) :
+    ∀ (fuel : Nat) (c : Nat) (steps : Nat) (acc path : List Nat) (es : List Edge),
+      es.map (·.market) = acc → walkEnd c es = tgt → PredLinked pred c es →
+      (∀ e ∈ es, e ∈ g.edges) →
+      walk pred ms fuel (pred c) steps acc = some path →
+      ∃ (x : Nat) (es' : List Edge), es'.map (·.market) = path ∧ walkEnd x es' = tgt ∧
+        PredLinked pred x es' ∧ pred x = none ∧ (∀ e ∈ es', e ∈ g.edges)
+  | 0, _, _, _, _, _, _, _, _, _, h => by simp [walk] at h
+  | fuel + 1, c, steps, acc, path, es, hm, he, hl, hin, h => by
+    unfold walk at h
+    split at h
+    · rename_i hn
+      cases h
+      exact ⟨c, es, hm, he, hl, hn, hin⟩
+    · rename_i p m hpm
+      split at h
+      · cases h
+      · obtain ⟨e, hmem, hs, hd, hmk, _⟩ := hok c p m hpm
+        refine walk_chain_linked g pred hok ms tgt fuel p (steps + 1) (m :: acc) path (e :: es) ?_ ?_ ?_ ?_ h
+        · simp [hmk, hm]
+        · simp only [walkEnd]; rw [hd]; exact he
+        · exact ⟨hs, by rw [hd, hmk]; exact hpm, by rw [hd]; exact hl⟩
+        · intro e' he'
+          rcases List.mem_cons.1 he' with rfl | he'
+          · exact hmem
+          · exact hin e' he'
+
+/-- ranks along a predecessor-linked walk increase by one per edge. -/
+theorem linked_ranks (pred : Pred) : ∀ (es : List Edge) (a n : Nat), PredLinked pred a es →
+    Term pred a n → ∀ e ∈ es, ∃ k, n ≤ k ∧ Term pred e.src k ∧ Term pred e.dst (k + 1)
+  | [], _, _, _, _, _, h => by cases h
+  | x :: es, a, n, ⟨h1, h2, h3⟩, ht, e, he => by
+    have hx : Term pred x.dst (n + 1) := Term.succ h2 ht
+    rcases List.mem_cons.1 he with rfl | he
+    · exact ⟨n, Nat.le_refl _, by rw [h1]; exact ht, hx⟩
+    · obtain ⟨k, hk, r1, r2⟩ := linked_ranks pred es x.dst (n + 1) h3 hx e he
+      exact ⟨k, by omega, r1, r2⟩
+
+/-- market well-formedness: the two edges of a market join the same pair of tokens. -/
+def MarketsWF (g : Graph) : Prop :=
+  ∀ e ∈ g.edges, ∀ e' ∈ g.edges, e.market = e'.market →
+    (e.src = e'.src ∧ e.dst = e'.dst) ∨ (e.src = e'.dst ∧ e.dst = e'.src)
+
+/-- a predecessor-linked walk from a token without predecessor repeats no market. -/
+theorem linked_markets_nodup (g : Graph) (hm : MarketsWF g) (pred : Pred) :
+    ∀ (es : List Edge) (a n : Nat), (∀ e ∈ es, e ∈ g.edges) → PredLinked pred a es → Term pred a n →
+      (es.map (·.market)).Nodup
+  | [], _, _, _, _, _ => by simp
+  | x :: es, a, n, hin, ⟨h1, h2, h3⟩, ht => by
+    have hx : Term pred x.dst (n + 1) := Term.succ h2 ht
+    simp only [List.map_cons, List.nodup_cons]
+    refine ⟨?_, linked_markets_nodup g hm pred es x.dst (n + 1)
+      (fun e he => hin e (List.mem_cons_of_mem _ he)) h3 hx⟩
+    intro hmem
+    obtain ⟨e', he', hmk⟩ := List.mem_map.1 hmem
+    obtain ⟨k, hk, r1, r2⟩ := linked_ranks pred es x.dst (n + 1) h3 hx e' he'
+    have hxs : Term pred x.src n := by rw [h1]; exact ht
+    rcases hm x (hin x (List.mem_cons_self ..)) e' (hin e' (List.mem_cons_of_mem _ he')) hmk.symm with
+      ⟨q1, _⟩ | ⟨q1, _⟩
+    · rw [q1] at hxs
+      have := Term.det hxs r1
+      omega
+    · rw [q1] at hxs
+      have := Term.det hxs r2
+      omega
+
+end Gmx.SwapGraph
+
+namespace Gmx.SwapGraph
+
+/-! ### rootedness in DFS mode, and walks that start at the source -/
+
+theorem dfsRec_rooted (g : Graph) (src : Nat) : ∀ (fuel cur : Nat) (distance : Option Int)
+    (P : Option (Nat × Nat)) (steps : Nat) (visited : List Nat) (st : Dist × Pred),
+    PredRooted src st.2 → (P = none → cur = src ∧ st.2 cur = none) →
+    (∀ u m, P = some (u, m) → u = src ∨ st.2 u ≠ none) →
+    PredRooted src (dfsRec g fuel cur distance P steps visited st).2 ∧
+    (∀ u, st.2 u ≠ none → (dfsRec g fuel cur distance P steps visited st).2 u ≠ none)
+  | 0, _, _, _, _, _, _, h, _, _ => by simp only [dfsRec]; exact ⟨h, fun _ hu => hu⟩
+  | fuel + 1, cur, distance, P, steps, visited, st, hJ, hP0, hP1 => by
+    unfold dfsRec
+    by_cases h1 : steps > g.maxSteps
+    · rw [if_pos h1]; exact ⟨hJ, fun _ hu => hu⟩
+    · rw [if_neg h1]
+      cases distance with
+      | none => exact ⟨hJ, fun _ hu => hu⟩
+      | some d =>
+        simp only []
+        by_cases h2 : pruned (st.1 cur) d = true
+        · rw [if_pos h2]; exact ⟨hJ, fun _ hu => hu⟩
+        · rw [if_neg h2]
+          -- the state after recording `cur`
+          have hJ0 : PredRooted src (setP st.2 cur P) := by
+            intro v u m hv
+            simp only [setP] at hv ⊢
+            by_cases hq : v = cur
+            · simp only [hq, if_true] at hv
+              rcases hP1 u m hv with h | h
+              · exact Or.inl h
+              · right
+                by_cases hu : u = cur
+                · simp [hu, hv]
+                · simp only [hu, if_false]; exact h
+            · simp only [hq, if_false] at hv
+              rcases hJ v u m hv with h | h
+              · exact Or.inl h
+              · by_cases hu : u = cur
+                · cases hP : P with
+                  | none => left; rw [hu]; exact (hP0 hP).1
+                  | some x => right; simp [hu]
+                · right; simp only [hu, if_false]; exact h
+          have hmono0 : ∀ u, st.2 u ≠ none → setP st.2 cur P u ≠ none := by
+            intro u hu
+            simp only [setP]
+            by_cases hq : u = cur
+            · simp only [hq, if_true]
+              intro hP
+              exact hu (by rw [hq]; exact (hP0 hP).2)
+            · simp only [hq, if_false]; exact hu
+          have hcur : cur = src ∨ setP st.2 cur P cur ≠ none := by
+            cases hP : P with
+            | none => exact Or.inl (hP0 hP).1
+            | some x => right; simp [setP]
+          have key := foldl_inv
+            (fun a : Dist × Pred => PredRooted src a.2 ∧ ∀ u, setP st.2 cur P u ≠ none → a.2 u ≠ none)
+            (fun st' e => if (cur :: visited).contains e.dst = true then st'
+              else dfsRec g fuel e.dst (e.cost.map (fun w => w + d)) (some (cur, e.market)) (steps + 1)
+                (cur :: visited) st')
+            (outgoing g cur) (setD st.1 cur d, setP st.2 cur P) ⟨hJ0, fun _ hu => hu⟩
+            (by
+              intro a e _ ⟨haJ, hamono⟩
+              by_cases h3 : (cur :: visited).contains e.dst = true
+              · rw [if_pos h3]; exact ⟨haJ, hamono⟩
+              · rw [if_neg h3]
+                obtain ⟨r1, r2⟩ := dfsRec_rooted g src fuel e.dst (e.cost.map (fun w => w + d))
+                  (some (cur, e.market)) (steps + 1) (cur :: visited) a haJ (fun hh => by cases hh)
+                  (by
+                    intro u m hum
+                    cases hum
+                    rcases hcur with h | h
+                    · exact Or.inl h
+                    · exact Or.inr (hamono cur h))
+                exact ⟨r1, fun u hu => r2 u (hamono u hu)⟩)
+          exact ⟨key.1, fun u hu => key.2 u (hmono0 u hu)⟩
+
+/-- predecessor walk over a rooted predecessor structure of graph edges: a non-empty result is a
+walk that starts at the source. -/
+theorem walk_chain_rooted (g : Graph) (src : Nat) (pred : Pred) (hok : PredOk g pred)
+    (hJ : PredRooted src pred) (ms tgt : Nat) :
+    ∀ (fuel : Nat) (c : Nat) (steps : Nat) (acc path : List Nat) (es : List Edge),
+      es.map (·.market) = acc → isWalk g c es = true → walkEnd c es = tgt →
+      (es = [] ∨ c = src ∨ pred c ≠ none) →
+      walk pred ms fuel (pred c) steps acc = some path →
+      ∃ (x : Nat) (es' : List Edge), es'.map (·.market) = path ∧ isWalk g x es' = true ∧
+        walkEnd x es' = tgt ∧ (es' = [] ∨ x = src)
+  | 0, _, _, _, _, _, _, _, _, _, h => by simp [walk] at h
+  | fuel + 1, c, steps, acc, path, es, hm, hw, he, hroot, h => by
+    unfold walk at h
+    split at h
+    · rename_i hn
+      cases h
+      refine ⟨c, es, hm, hw, he, ?_⟩
+      rcases hroot with h1 | h1 | h1
+      · exact Or.inl h1
+      · exact Or.inr h1
+      · exact absurd hn h1
+    · rename_i p m hpm
+      split at h
+      · cases h
+      · obtain ⟨e, hin, hs, hd, hmk, hc⟩ := hok c p m hpm
+        refine walk_chain_rooted g src pred hok hJ ms tgt fuel p (steps + 1) (m :: acc) path (e :: es)
+          ?_ ?_ ?_ ?_ h
+        · simp [hmk, hm]
+        · simp only [isWalk, Bool.and_eq_true, decide_eq_true_eq]
+          exact ⟨⟨⟨hin, hs⟩, hc⟩, by rw [hd]; exact hw⟩
+        · simp only [walkEnd]; rw [hd]; exact he
+        · right; exact hJ c p m hpm
+
+end Gmx.SwapGraph
